@@ -111,3 +111,33 @@ Proof.
   - apply NumArgs_is_translation. - apply ArgAt_is_translation. - apply ClosestNamedAncestor_is_translation.
 Qed.
 End Queries.
+
+Section Scopes.
+Context {V : Type}.
+Notation Obj := (Object V).
+Notation Tree := (ObjectTree V).
+
+(** CreateDefaultScopes: six newNamedObject calls and five appends; the model takes the names from the regenerated
+    constant [tree_defaultScopeNames], the translation from the array literals of the source *)
+Theorem CreateDefaultScopes_is_translation : forall (t : Tree) (th : N),
+  go_aml_ObjectTree_CreateDefaultScopes (tr_tree t) th table_oracle =
+  lift (fun t' => (tr_tree t', tt)) (CreateDefaultScopes t th).
+Proof.
+  intros. unfold go_aml_ObjectTree_CreateDefaultScopes, CreateDefaultScopes.
+  change tree_defaultScopeNames with [[92; 0; 0; 0]; [95; 71; 80; 69]; [95; 80; 82; 95]; [95; 83; 66; 95]; [95; 83; 73; 95]; [95; 84; 90; 95]].
+  cbn [append_scopes name_of_list]. unfold opScopeBlock.
+  repeat match goal with
+  | |- context [gpad tree_amlNameLen ?l] =>
+      let n := eval vm_compute in (gpad tree_amlNameLen l) in change (gpad tree_amlNameLen l) with n
+  end.
+  repeat match goal with
+  | |- context [go_aml_ObjectTree_newNamedObject (tr_tree ?T) ?o ?h [?a; ?b; ?c; ?d] table_oracle] =>
+      change [a; b; c; d] with (name_bytes (a, b, c, d));
+      rewrite (newNamedObject_is_translation T o h (a, b, c, d));
+      destruct (newNamedObject T o h (a, b, c, d)) as [[? ?]| |]; cbn [lift bind]; try reflexivity
+  | |- context [go_aml_ObjectTree_append (tr_tree ?T) (Some ?x) (Some ?y)] =>
+      rewrite (append_is_translation T x y);
+      destruct (append T x y) as [?| |]; cbn [lift bind]; try reflexivity
+  end.
+Qed.
+End Scopes.
